@@ -35,6 +35,11 @@ def mk_frame(prior, asc, seed, wd):
         arr = np.array(fr.data, dtype=float, order='C')
         fr = stg.Frame.from_data(DF, DT, fch1, asc, arr, seed=seed)
         fr._c06_src = (arr, arr.copy())
+    elif prior == 'ints':
+        # prior content handed over as an INTEGER array (counts, an 8-bit product): the frame holds it as floating point
+        arr = (np.arange(TCH * FCH).reshape(TCH, FCH) % 17 + 3).astype(np.int64)
+        fr = stg.Frame.from_data(DF, DT, fch1, asc, arr, seed=seed)
+        fr._c06_src = (arr, arr.copy())
     elif prior == 'zeros':
         # empty, with negative zeros here and there ("bit-for-bit untouched" includes their sign)
         fr.data[::2, 1::2] = -0.0
@@ -360,7 +365,7 @@ def run(ctx):
     depth = 3 if T else 2
     nsteps = len(SIGNALS) * len(RANGES) + len(BAD) + 1
     cases = []
-    for prior in ('zeros', 'noise', 'signal', 'fil'):
+    for prior in ('zeros', 'noise', 'signal', 'fil', 'ints'):
         for asc in (True, False):
             for first in range(nsteps):
                 cases.append(dict(prior=prior, asc=asc, depth=depth, first=first, seed=ctx.seed))
